@@ -120,6 +120,14 @@ pub fn profile(family: &str) -> Profile {
 }
 
 pub fn generate(family: &str, rng: &mut Rng) -> Case {
+    if std::env::var("HARNESS_SMALL").is_ok() {
+        // small programs for exhaustive schedule enumeration (single-actor families)
+        let mut p = profile(family);
+        p.max_clients = 2;
+        p.max_ops = 2;
+        p.timers = p.timers.min(3);
+        return gen_actor(&p, rng);
+    }
     match family {
         "C08" => gen_registry(rng),
         "C16" => gen_children(rng),
